@@ -13,7 +13,7 @@ pub struct Regress {
 }
 
 fn leaf(script: &[Step]) -> ChildSpec {
-    ChildSpec::Leaf(LeafSpec { script: script.to_vec(), always: false, hint: false })
+    ChildSpec::Leaf(LeafSpec { script: script.to_vec(), always: false, hint: false, dropwake: false })
 }
 
 fn comb_case(family: Family, container: Container, children: Vec<ChildSpec>) -> Case {
@@ -52,7 +52,7 @@ pub fn cases(prop: &str, tier: Tier) -> Vec<Regress> {
         "C15" => {
             use crate::costream::{Adapter, CoCase, SourceKind, Terminal};
             // F2: take(0) must process no item at all
-            let ready = || LeafSpec { script: vec![Step::Yield(true)], always: false, hint: false };
+            let ready = || LeafSpec { script: vec![Step::Yield(true)], always: false, hint: false, dropwake: false };
             for source in [SourceKind::Co, SourceKind::Vec] {
                 for terminal in [Terminal::CollectVec, Terminal::ForEach, Terminal::TryForEach] {
                     for (sname, stack) in [
@@ -84,7 +84,7 @@ pub fn cases(prop: &str, tier: Tier) -> Vec<Regress> {
         "C17" => {
             // rotation state that only goes wrong after very many polls (a
             // counter that wraps at 2^8 or 2^16), or for very many inputs
-            let always = || ChildSpec::Leaf(LeafSpec { script: vec![], always: true, hint: false });
+            let always = || ChildSpec::Leaf(LeafSpec { script: vec![], always: true, hint: false, dropwake: false });
             let long = |c: Container, n: usize, polls: u32| {
                 let mut case = comb_case(Family::Merge, c, (0..n).map(|_| always()).collect());
                 case.fair_polls = polls;
